@@ -170,7 +170,9 @@ func init() {
 			for _, a := range e3 {
 				for _, b := range e3 {
 					for _, cc := range e3 {
-						ok := func(p string) bool { return p == "_id" || p == "a" || p == "a.b" || p == "a.bb" || p == "a.e" || p == "r" }
+						ok := func(p string) bool {
+							return p == "_id" || p == "a" || p == "a.b" || p == "a.bb" || p == "a.e" || p == "r"
+						}
 						if a.path != b.path && a.path != cc.path && b.path != cc.path && ok(a.path) && ok(b.path) && ok(cc.path) {
 							projs = append(projs, []c14Entry{a, b, cc})
 						}
